@@ -60,8 +60,29 @@ def parseVal (v : String) : Value :=
   | '@' :: r => .array ((String.ofList r).splitOn ".")
   | _ => .scalar v
 
-def assigns (ts : List String) : List (Name × Value) :=
-  ts.map fun t => let (n, v) := splitAssign t; (n, parseVal (v.getD ""))
+/-- value token of a prefix assignment: `$m` refers to the variable `m`, anything else is a literal -/
+def parseAVal (v : String) : AVal :=
+  match v.toList with
+  | '$' :: r => .ref (String.ofList r)
+  | _ => .lit (parseVal v)
+
+def assigns (ts : List String) : List (Name × AVal) :=
+  ts.map fun t => let (n, v) := splitAssign t; (n, parseAVal (v.getD ""))
+
+/-- expansion of an assignment value in the current state -/
+def evalA {σ} (I : Iface σ) (s : σ) : AVal → Value
+  | .lit v => v
+  | .ref n => valueOfVar (I.get s n)
+
+/-- `assign::perform_assignments`: the assignments of a prefix are performed strictly in order —
+    each value is expanded in the state the previous assignments left (`a=1 b=$a` gives `b` the
+    value 1) — and the first refusal (read-only) ends the command -/
+def runAssigns {σ} (I : Iface σ) (sc : Scope) (ex : Bool) : σ → List (Name × AVal) → σ × Bool
+  | s, [] => (s, false)
+  | s, (n, e) :: rest =>
+    match runOps I s (assignOps sc ex n (evalA I s e)) with
+    | (s', true) => (s', true)
+    | (s', false) => runAssigns I sc ex s' rest
 
 def showV (o : Option Variable) : String :=
   match o with
@@ -148,23 +169,22 @@ def operandOf (t : String) : Name × Option Value :=
 
 /-- what a statement does, independently of the state: the operations come from `Exec.lean` -/
 inductive Action where
-  | special (ops : List Op)
+  | special (as : List (Name × AVal)) (ops : List Op)
   | typeset (sc : Scope) (opts operands : List String)
   | print (b : String) (opts names : List String)
-  | regular (kind : String) (temps : List (Name × Value))
-  | call (f : String) (temps : List (Name × Value)) (args : List String)
+  | regular (kind : String) (temps : List (Name × AVal))
+  | call (f : String) (temps : List (Name × AVal)) (args : List String)
   | ret
   | bad
 
 def stmtAction (st : Stmt) : Action :=
   match st.kind with
-  | "A" | "S" => .special (specialCmd (assigns st.pre) [])
-  | "E" => .special (specialCmd (assigns st.pre)
-      (st.post.flatMap fun t => exportOps (operandOf t).1 (operandOf t).2))
-  | "EX" => .special (st.pre.flatMap fun t => exportOps (operandOf t).1 (operandOf t).2)
-  | "R" => .special (st.pre.flatMap fun t => readonlyOps (operandOf t).1 (operandOf t).2 1)
-  | "U" | "UV" => .special (unsetOps st.pre)
-  | "SP" => .special [.setParams st.pre]
+  | "A" | "S" => .special (assigns st.pre) []
+  | "E" => .special (assigns st.pre) (st.post.flatMap fun t => exportOps (operandOf t).1 (operandOf t).2)
+  | "EX" => .special [] (st.pre.flatMap fun t => exportOps (operandOf t).1 (operandOf t).2)
+  | "R" => .special [] (st.pre.flatMap fun t => readonlyOps (operandOf t).1 (operandOf t).2 1)
+  | "U" | "UV" => .special [] (unsetOps st.pre)
+  | "SP" => .special [] [.setParams st.pre]
   | "RET" => .ret
   | "L" => .typeset .loc [] st.pre
   | "G" => .typeset .global ["-g"] st.pre
@@ -188,10 +208,14 @@ def execStmts {σ} (I : Iface σ) (funs : List (String × List Stmt)) :
     let fin (s' : σ) (out : List String) :=
       execStmts I funs fuel s' rest (vline I (expOf I s') s' :: out)
     match stmtAction st with
-    | .special ops =>
-      match runOps I s ops with
-      | (s', true) => (s', out, Status.abort)
-      | (s', false) => fin s' out
+    | .special as ops =>
+      -- assignments at `Global` scope without export, in the current contexts, then the built-in
+      match runAssigns I .global false s as with
+      | (s0, true) => (s0, out, Status.abort)
+      | (s0, false) =>
+        match runOps I s0 ops with
+        | (s', true) => (s', out, Status.abort)
+        | (s', false) => fin s' out
     | .ret => (s, out, .ret)
     | .bad => (s, "bad" :: out, .abort)
     | .typeset sc opts operands =>
@@ -207,7 +231,7 @@ def execStmts {σ} (I : Iface σ) (funs : List (String × List Stmt)) :
       else fin s ((printLines I s1 b opts names).reverse ++ out)
     | .regular kind temps =>
       let exp := expOf I s
-      match runOps I s ([Op.push .volatile] ++ tempOps temps) with
+      match runAssigns I .volatile true (I.step s (.push .volatile)).1 temps with
       | (s1, true) => (s1, out, .abort)
       | (s1, false) =>
         let out :=
@@ -220,7 +244,7 @@ def execStmts {σ} (I : Iface σ) (funs : List (String × List Stmt)) :
       match funs.lookup f with
       | none => (s, "bad" :: out, .abort)
       | some body =>
-        match runOps I s ([Op.push .volatile] ++ tempOps temps) with
+        match runAssigns I .volatile true (I.step s (.push .volatile)).1 temps with
         | (s1, true) => (s1, out, .abort)
         | (s1, false) =>
           let s2 := (I.step s1 (.push (.regular args))).1
